@@ -273,6 +273,19 @@ def r3(ck, F):
     # when the top of the stack is rejected by the filter, the "current span" for this layer is the newest *entered* span
     # its filter accepts: the fallback must walk the thread's entered-span stack, not the rejected span's parent links
     lookup_current_fallback(ck, F)
+    # the remaining ways a layer can learn about a span: Context::current_span / exists and the deprecated
+    # SpanRef::parent_id hand out identity (id, metadata, existence) without a per-filter test
+    for path, label in ((P + "current_span", "Context::current_span"), (P + "exists", "Context::exists"),
+                        ("tracing_subscriber::registry::SpanRef::<'a, R>::parent_id", "SpanRef::parent_id")):
+        b = F.body(path)
+        if b is None:
+            continue
+        calls = {t["callee"].get("method") for x in [b] + F.closures_of(b) for bb, t in x.calls()}
+        if calls & {"try_with_filter", "is_enabled_for", "lookup_current", "with_filter"} or (P + "span") in {t["callee"].get("path") for bb, t in b.calls()}:
+            ck.ok("C07.R3", "%s consults the layer's filter" % label, fn=b.path)
+        else:
+            ck.bad("C07.R3", "%s ignores the layer's filter" % label, where(b.raw["sp"]),
+                   "a span this layer's filter rejected is visible through %s (calls: %s)" % (label, sorted(c for c in calls if c)[:6]), fn=b.path)
     for m, allowed in via.items():
         b = F.body(P + m)
         if not ck.anchor("C07.R3", "Context::" + m, b):
